@@ -16,6 +16,8 @@ type GoGen struct {
 	R *fw.Rand
 	// FmtBias makes fmt.Print*/Sprint*/Errorf and package-function calls more frequent (C25).
 	FmtBias bool
+	// NoHdrLit keeps composite literals of named types out of statement headers entirely.
+	NoHdrLit bool
 	nv      int
 	ind     int
 	labels  int
@@ -713,11 +715,22 @@ func (g *GoGen) hdrExpr(sc *gscope, t gty, d int) string {
 	for try := 0; ; try++ {
 		x := g.expr(sc, t, d)
 		h := hdr(x)
-		if h == x || try >= 6 || g.R.Chance(1, 12) {
+		if h == x {
+			return h
+		}
+		if g.NoHdrLit {
+			if try >= 6 {
+				return hdrFallback[t]
+			}
+			continue
+		}
+		if try >= 6 || g.R.Chance(1, 12) {
 			return h
 		}
 	}
 }
+
+var hdrFallback = map[gty]string{tInt: "gCount", tStr: "KStr", tBool: "(gCount > 0)", tInts: "[]int{1, 2}"}
 
 func (g *GoGen) opAssignRHS(sc *gscope) string {
 	return fw.Pick(g.R, []string{"1", "2", "3", "(" + g.expr(sc, tInt, 1) + " & 7)"})
